@@ -18,7 +18,7 @@ def configs(tier):
     B = 2 if tier == "quick" else 3
     out = []
     for kind in ("ode", "statio", "nonstatio"):
-        for extra in ("plain", "param", "param+obs"):
+        for extra in ("plain", "param", "param+obs", "param+obs_eq"):
             out.append(dict(what="loss", kind=kind, extra=extra, B=B))
     for kind in ("system_ode", "system_statio", "system_nonstatio"):
         for extra in ("plain", "param"):
@@ -26,6 +26,12 @@ def configs(tier):
     n = 4 if tier == "quick" else 6
     for gk in ("times", "inside2", "border", "nonstatio", "param", "obs"):
         out.append(dict(what="gen", kind=gk, n=n, b=2, x64=False))
+    # first draw from the constructor state: eager (python-int cursors) vs jax.jit (int32 cursors, as jinns.solve compiles it),
+    # with all orderings of unequal batch sizes
+    for (bt, bx, bb) in ((3, 1, 1), (1, 3, 2), (2, 1, 3)):
+        out.append(dict(what="gen_ctor", bt=bt, bx=bx, bb=bb, n=n, x64=False))
+    for gk in ("times", "param", "obs"):
+        out.append(dict(what="gen_ctor", kind=gk, n=n, b=3, x64=False))
     return out
 
 
@@ -40,8 +46,38 @@ def same_tree(label, a, b):
     return [(label, tm.conj([eq(p, q) for x, y in zip(la, lb) for p, q in zip(x.flat, y.flat)]))]
 
 
+def run_gen_ctor(cfg, R):
+    import jinns.data._DataGenerators as DG
+    n = cfg["n"]
+    key = jax.random.PRNGKey(6)
+    if "kind" not in cfg:
+        bt, bx, bb = cfg["bt"], cfg["bx"], cfg["bb"]
+        g = DG.CubicMeshPDENonStatio(key=key, n=n, nb=4 * n, nt=n, omega_batch_size=bx, omega_border_batch_size=bb, temporal_batch_size=bt, dim=2,
+                                     min_pts=(0.0, 0.0), max_pts=(1.0, 1.0), tmin=0.0, tmax=1.0)
+        name = f"gen_ctor/nonstatio/bt{bt}bx{bx}bb{bb}"
+    else:
+        b = cfg["b"]
+        g = {"times": lambda: DG.DataGeneratorODE(key, n, 0.0, 1.0, b),
+             "param": lambda: DG.DataGeneratorParameter(key, n, b, param_ranges={"nu": (0.0, 1.0)}),
+             "obs": lambda: DG.DataGeneratorObservations(key, b, jnp.arange(n * 2, dtype=jnp.float32).reshape(n, 2), jnp.arange(n, dtype=jnp.float32).reshape(n, 1))}[cfg["kind"]]()
+        name = f"gen_ctor/{cfg['kind']}/b{b}"
+    R.note(functions=[f"jinns.data.{type(g).__name__}.get_batch from the constructor state: eager vs jax.jit (as compiled by jinns.solve)"], stubs_=["jax.random contracts"])
+    def f(g):
+        r1 = g.get_batch()
+        rj = jax.jit(lambda gg: gg.get_batch())(g)
+        r2 = r1[0].get_batch(); rj2 = jax.jit(lambda gg: gg.get_batch())(rj[0])
+        return r1[1], rj[1], r2[1], rj2[1]
+    tr = R.trace(name, f, (g,), key="gen_ctor:raises", use_stubs=True, trace_only_is_violation=True, missing="example", conc=lambda nm, l: nm.endswith("indices"))
+    if tr is None: return
+    def goals(A, O):
+        b1, bj, b2, bj2 = O
+        return same_tree("first batch from the constructor state: jit == eager", b1, bj) + same_tree("second batch: jit == eager", b2, bj2)
+    R.check(name, tr, goals, validate=False, key_fn=lambda prog, g_: "gen_ctor:" + g_.split(":")[0][:40])
+
+
 def run(cfg, R):
     if cfg["what"] == "gen": return run_gen(cfg, R)
+    if cfg["what"] == "gen_ctor": return run_gen_ctor(cfg, R)
     from .c12 import _mk
     import jinns
     from jinns.parameters import Params, ParamsDict
@@ -58,6 +94,8 @@ def run(cfg, R):
             batch = eqx.tree_at(lambda b: b.param_batch_dict, batch, pb, is_leaf=lambda x: x is None)
             if extra == "param":
                 batch = eqx.tree_at(lambda b: b.obs_batch_dict, batch, None)
+            if extra == "param+obs_eq":      # observed equation parameter next to a parameter batch
+                batch = eqx.tree_at(lambda b: b.obs_batch_dict["eq_params"], batch, {"mu": jnp.arange(1, B + 1).reshape(B, 1) * 0.15})
     name = f"loss/{kind}/{extra}"
     key = f"{kind}:{extra}"
     R.note(functions=["%s.evaluate called twice, under jax.jit and under jax.value_and_grad(has_aux=True)" %
